@@ -7,6 +7,13 @@ from vlib import (HarnessError, build, concat_traces, log, mc_coverage, ncpu, pa
                   report_violation, run_driver, save_replay, tlc_mc, tlc_trace, trace_lines)
 
 
+def neutralise_line(path, lineno):
+    lines = open(path).read().splitlines()
+    ev = json.loads(lines[lineno - 1])
+    lines[lineno - 1] = json.dumps({"ev": "note", "what": "known-finding", "was": ev})
+    open(path, "w").write("\n".join(lines) + "\n")
+
+
 def kv_design_mc(ctx):
     cfg = "KVMC_quick.cfg" if ctx.quick else "KVMC_thorough.cfg"
     return tlc_mc(ctx, "KVMC.tla", cfg, timeout=1500, label="KV contract (%s)" % cfg)
@@ -43,7 +50,7 @@ def validate_traces(ctx, spec, cfg, traces, chunk=8, describe=None, timeout=900)
     return fails
 
 
-def run_kv(ctx, mode, nprog, nsteps, nkeys=24, extra_args=None, sig_fn=None):
+def run_kv(ctx, mode, nprog, nsteps, nkeys=24, extra_args=None, sig_fn=None, need_comp=("mem", "l0", "nl0")):
     kv_design_mc(ctx)
     exe = build("seqdb")
     seeds = [ctx.seed * 1000 + i for i in range(nprog)]
@@ -68,19 +75,27 @@ def run_kv(ctx, mode, nprog, nsteps, nkeys=24, extra_args=None, sig_fn=None):
     ctx.extra["calls_by_kind"] = calls
     ctx.extra["option_rows"] = sorted(set(s["row"] for s in sums))[:40]
     ctx.extra["programs"] = len(sums)
-    if min(comp.get("mem", 0), comp.get("l0", 0), comp.get("nl0", 0)) == 0:
+    if any(comp.get(k, 0) == 0 for k in need_comp):
         raise HarnessError("drivers did not reach every compaction kind: %s" % comp)
-    fails = validate_traces(ctx, "KVTrace.tla", "KVTrace.cfg", sums)
-    for t, r in fails:
-        line = read_line(t["path"], r["hwm"]) or "{}"
-        ev = json.loads(line)
-        sig = sig_fn(t, ev) if sig_fn else "%s:%s" % (mode, ev.get("ev"))
-        what = "line %d of %s not explained by KV.tla: %s (row: %s)" % (r["hwm"], os.path.basename(t["path"]), line[:300], t["row"])
-        rp = save_replay(ctx, "%s-seed%d" % (mode, t["seed"]), [t["path"]],
-                         {"property": ctx.pid, "cmd": t["cmd"], "stuck_line": r["hwm"], "event": ev, "row": t["row"],
-                          "context": trace_lines(t["path"], max(1, r["hwm"] - 8), r["hwm"]),
-                          "replay": "TRACE=<trace> tlc -workers 1 -config KVTrace.cfg KVTrace.tla (in /verif/spec)"})
-        report_violation(ctx, sig, what, rp)
+    pending = sums
+    for _round in range(6):
+        fails = validate_traces(ctx, "KVTrace.tla", "KVTrace.cfg", pending)
+        pending = []
+        for t, r in fails:
+            line = read_line(t["path"], r["hwm"]) or "{}"
+            ev = json.loads(line)
+            sig = sig_fn(t, ev) if sig_fn else "%s:%s" % (mode, ev.get("ev"))
+            what = "line %d of %s not explained by KV.tla: %s (row: %s)" % (r["hwm"], os.path.basename(t["path"]), line[:300], t["row"])
+            rp = save_replay(ctx, "%s-seed%d" % (mode, t["seed"]), [t["path"]],
+                             {"property": ctx.pid, "cmd": t["cmd"], "stuck_line": r["hwm"], "event": ev, "row": t["row"],
+                              "context": trace_lines(t["path"], max(1, r["hwm"] - 8), r["hwm"]),
+                              "replay": "TRACE=<trace> tlc -workers 1 -config KVTrace.cfg KVTrace.tla (in /verif/spec)"})
+            if not report_violation(ctx, sig, what, rp):
+                # a listed known finding: neutralise that line and check the rest of the trace
+                neutralise_line(t["path"], r["hwm"])
+                pending.append(t)
+        if not pending:
+            break
     if sums:
         ctx.samples.append({"program": sums[0]["cmd"], "first_events": trace_lines(sums[0]["path"], 1, 6)})
     return sums
